@@ -148,7 +148,7 @@ func (g *Gen) ckCfg() ckCfg {
 		size:    uint64(g.Pick(1, 2, 3, 4, 5, 6, 7, 8, 8, 16, 16, 20)),
 		bsize:   uint64(g.Pick(1, 1, 2, 2, 4)),
 		fpl:     uint64(g.Pick(1, 2, 2, 3, 4, 6)),
-		retries: uint64(g.Pick(1, 2, 3, 5, 10, 50, 500)),
+		retries: uint64(g.Pick(0, 1, 2, 3, 5, 10, 50, 500)),
 	}
 	return c
 }
